@@ -215,4 +215,6 @@ def run(chk):
     macro_rules(chk, prog)
     primitives(chk, prog)
     option_vec(chk, prog)
+    c14_corpus.support_helpers(prog)
+    chk.extra["support_helpers"] = dict(c14_corpus.SUPPORT)
     c14_corpus.run(chk)
